@@ -102,7 +102,7 @@ impl Open {
 //@@ ret Open
 //@@ subst `.map(Into::into)` => `` rule=R16
 //@@ subst `std::cmp::max( MIN_MAX_FRAME_SIZE as u32, builder.max_frame_size.0, )` => `max_u32(MIN_MAX_FRAME_SIZE as u32, builder.max_frame_size.0)` rule=R16
-//@@ subst `builder.idle_time_out.map(|v| v / 2)` => `builder.idle_time_out.map(|v: u32| -> (o: u32) ensures o == v / 2 { v / 2 })` rule=R18
+//@@ subst `builder.idle_time_out.map(|v| v / 2)` => `builder.idle_time_out.map(|v: u32| -> (o: u32) ensures o == v / 2 { v / 2 })` rule=R18 unless `\.map\(`
 //@@ spec
     ensures
         r.idle_time_out == (match builder.idle_time_out { Some(v) => Some((v / 2) as u32), None => None::<u32> }),   // [C17.idle.advertised-half] the idle-time-out advertised to the peer is half of the configured one (AMQP 2.4.5), never more
@@ -124,7 +124,7 @@ impl Builder {
 //@@ subst `mpsc::channel(DEFAULT_CONTROL_CHAN_BUF)` => `ctl_channel(DEFAULT_CONTROL_CHAN_BUF)` rule=R9
 //@@ subst `mpsc::channel(buffer_size)` => `frame_channel(buffer_size)` rule=R9
 //@@ subst `(spawn_engine_fn)(engine, control_tx, outgoing_tx)` => `spawn_engine_fn.call(engine, control_tx, outgoing_tx)` rule=R19
-//@@ subst `.map(|millis| Duration::from_millis(millis as u64))` => `.map(|millis: u32| -> (o: Duration) ensures o.ms == millis as u64 { Duration::from_millis(millis as u64) })` rule=R18
+//@@ subst `.map(|millis| Duration::from_millis(millis as u64))` => `.map(|millis: u32| -> (o: Duration) ensures o.ms == millis as u64 { Duration::from_millis(millis as u64) })` rule=R18 unless `\.map\(`
 //@@ spec
     requires
         old(spawn_engine_fn).engine@ is None,
